@@ -109,7 +109,14 @@ where
     OpenClosed01: Distribution<F>,
 {
     fn sample<R: Rng + ?Sized>(&self, rng: &mut R) -> F {
-        let x: F = rng.sample(OpenClosed01);
+        // `OpenClosed01` includes 1, for which `-ln(x)` is 0 and the sample
+        // would be infinite; the distribution needs `x` in the open interval.
+        let x: F = loop {
+            let x: F = rng.sample(OpenClosed01);
+            if x < F::one() {
+                break x;
+            }
+        };
         self.location + self.scale * (-x.ln()).powf(-self.shape.recip())
     }
 }
